@@ -133,7 +133,10 @@ def snapshot(con):
     """canonical contents of all tables: sorted [key, value] with key = table*KEY_MUL + rowid, value = crc32 of the row"""
     out = []
     for ti, name in enumerate(TABLES):
-        cur = sqlite3.Connection.execute(con, 'select rowid, * from %s order by rowid' % name)
+        # t_u has no integer key: its rowids depend on the iteration order of a Python set inside add_m2m (differs from process
+        # to process) - use the pair itself as the row key
+        cur = sqlite3.Connection.execute(con, 'select t * 1000 + u, * from t_u order by 1' if name == 't_u' else
+                                         'select rowid, * from %s order by rowid' % name)
         for row in cur.fetchall():
             out.append([ti * KEY_MUL + row[0], zlib.crc32(repr(tuple(row[1:])).encode())])
         cur.close()
@@ -945,6 +948,7 @@ def run(ctx):
 
 
 QUICK_FULL_FAULTS = ('raw', 'm2m', 'commit_mid', 'hooks', 'oflush_delete', 'oflush_update', 'oflush_create', 'bulk_first')      # every call index, quick tier too
+THOROUGH_FULL_KILLS = ('raw', 'm2m', 'commit_mid', 'hooks', 'oflush_delete', 'bulk_first', 'db_insert_first', 'dup_caught')
 QUICK_FULL_KILLS = ('commit_mid', 'oflush_delete', 'bulk_first')
 
 
@@ -963,7 +967,7 @@ def _run(ctx, workdir):
         # the same program with every SQL text cache of the Database object warm (program run once before, rolled back)
         if ctx.thorough or name.startswith(('bulk', 'oflush_delete', 'raw', 'm2m', 'query_delete', 'update_delete', 'for_update')):
             g.add(name, prog, opts, warm=(name == 'bulk_after_select'), sqlwarm=True)
-    for i in range(ctx.scale(14, 150)):
+    for i in range(ctx.scale(14, 100)):
         g.add('random%d' % i, random_program(rng), rng.choice(list(SESSION_OPTS)), warm=rng.random() < 0.3, sqlwarm=rng.random() < 0.4)
     baselines = list(g.cases)
     tb = time.time()
@@ -1001,14 +1005,18 @@ def _run(ctx, workdir):
         # SIGKILL
         kks = list(range(n + 1))
         if ctx.thorough:
-            # every call index of every fixed program; 5 random indices of each random program (a kill costs ~0.5-2 s)
-            if b['name'].startswith('random'): kks = sorted(rng.sample(kks, min(len(kks), 5)))
+            # a kill costs 0.5-2 s (fork + page faults): every call index for one program of each protocol family (cold caches,
+            # fresh pool; `bulk_first` with warm SQL caches), 1 random index for every other fixed variant, 1 for a third of the
+            # random programs
+            if b['name'] in THOROUGH_FULL_KILLS and not b['warm'] and b['sqlwarm'] == (b['name'] == 'bulk_first'): pass
+            elif b['name'].startswith('random'): kks = sorted(rng.sample(kks, 1)) if b['id'] % 3 == ctx.seed % 3 else []
+            else: kks = sorted(rng.sample(kks, 1))
         elif not (b['name'] in QUICK_FULL_KILLS and not b['warm'] and b['sqlwarm'] == (b['name'] == 'bulk_first')):
             kks = sorted(rng.sample(kks, 1)) if (b['id'] % 3 == ctx.seed % 3) else []
         for k in kks:
             if k < n: g.add(b['name'], b['program'], b['opts'], b['warm'], sqlwarm=b['sqlwarm'], kill=['before', k], parent=b['id'])
             else: g.add(b['name'], b['program'], b['opts'], b['warm'], sqlwarm=b['sqlwarm'], kill=['after', n - 1], parent=b['id'])
-    for i in range(ctx.scale(4, 40)):
+    for i in range(ctx.scale(4, 24)):
         c = g.add('big', [], 'optimistic', False); c['timed'] = round(rng.uniform(0.0, 0.25), 3)
     derived = g.cases[len(baselines):]
     res.update(run_cases(derived, template, workdir))
